@@ -522,6 +522,8 @@ fn concat_parts(parts: Vec<Expr>, attr_ptr: &MySyntaxNodePtr) -> Expr {
 fn call_to_string(value: Expr, ty: Option<&ast::TypeExpr>, attr_ptr: &MySyntaxNodePtr) -> Expr {
     if matches!(ty, Some(ast::TypeExpr::TString)) {
         value
+    } else if let Some(name) = scalar_to_string_fn(ty) {
+        call_function(name, vec![value], attr_ptr)
     } else {
         Expr::ECall {
             func: Box::new(Expr::EField {
@@ -535,6 +537,26 @@ fn call_to_string(value: Expr, ty: Option<&ast::TypeExpr>, attr_ptr: &MySyntaxNo
     }
 }
 
+// Only int32 has an inherent `to_string` method; every scalar type has a builtin
+// `<type>_to_string` function, so scalar members are converted through that.
+fn scalar_to_string_fn(ty: Option<&ast::TypeExpr>) -> Option<&'static str> {
+    match ty? {
+        ast::TypeExpr::TUnit => Some("unit_to_string"),
+        ast::TypeExpr::TBool => Some("bool_to_string"),
+        ast::TypeExpr::TInt8 => Some("int8_to_string"),
+        ast::TypeExpr::TInt16 => Some("int16_to_string"),
+        ast::TypeExpr::TInt32 => Some("int32_to_string"),
+        ast::TypeExpr::TInt64 => Some("int64_to_string"),
+        ast::TypeExpr::TUint8 => Some("uint8_to_string"),
+        ast::TypeExpr::TUint16 => Some("uint16_to_string"),
+        ast::TypeExpr::TUint32 => Some("uint32_to_string"),
+        ast::TypeExpr::TUint64 => Some("uint64_to_string"),
+        ast::TypeExpr::TFloat32 => Some("float32_to_string"),
+        ast::TypeExpr::TFloat64 => Some("float64_to_string"),
+        _ => None,
+    }
+}
+
 fn call_to_json(value: Expr, ty: Option<&ast::TypeExpr>, attr_ptr: &MySyntaxNodePtr) -> Expr {
     match ty {
         // String needs to be quoted and escaped in JSON
@@ -544,7 +566,7 @@ fn call_to_json(value: Expr, ty: Option<&ast::TypeExpr>, attr_ptr: &MySyntaxNode
         }
         // Booleans are serialized as true/false (lowercase)
         Some(ast::TypeExpr::TBool) => call_function("bool_to_json", vec![value], attr_ptr),
-        // Numbers can be serialized directly via to_string
+        // Numbers can be serialized directly via their builtin `<type>_to_string`
         Some(ast::TypeExpr::TInt8)
         | Some(ast::TypeExpr::TInt16)
         | Some(ast::TypeExpr::TInt32)
@@ -554,15 +576,7 @@ fn call_to_json(value: Expr, ty: Option<&ast::TypeExpr>, attr_ptr: &MySyntaxNode
         | Some(ast::TypeExpr::TUint32)
         | Some(ast::TypeExpr::TUint64)
         | Some(ast::TypeExpr::TFloat32)
-        | Some(ast::TypeExpr::TFloat64) => Expr::ECall {
-            func: Box::new(Expr::EField {
-                expr: Box::new(value),
-                field: AstIdent::new(TO_STRING_FN),
-                astptr: *attr_ptr,
-            }),
-            args: Vec::new(),
-            astptr: *attr_ptr,
-        },
+        | Some(ast::TypeExpr::TFloat64) => call_to_string(value, ty, attr_ptr),
         // Unit serializes as null
         Some(ast::TypeExpr::TUnit) => Expr::EString {
             value: "null".to_string(),
